@@ -237,11 +237,26 @@ class Caller(object):
                 constraints.append(cons.SameChipConstraint([a, b]))
         return machine, g, constraints
 
-    def placer(self, t, forced=None):
+    def placer(self, t, forced=None, g=None, machine=None):
         name = PLACERS[t.draw(len(PLACERS))]
         if forced is not None:
             name = forced
         kwargs = {}
+        if name == "sequential" and g is not None and t.draw(2):
+            # the caller's own orders, as lists it keeps
+            order = list(g.vertices_resources)
+            for i in range(len(order) - 1, 0, -1):
+                j = t.draw(i + 1)
+                order[i], order[j] = order[j], order[i]
+            kwargs["vertex_order"] = order
+            if machine is not None and t.draw(2):
+                chips = [(x, y) for x in range(machine.width)
+                         for y in range(machine.height)
+                         if (x, y) in machine]
+                if t.draw(2):
+                    chips.reverse()
+                kwargs["chip_order"] = chips
+            self.w.probe("callers_vertex_order")
         if name.startswith("sa"):
             fn = rig_module("rig.place_and_route.place.sa").place
             kern = rig_module("rig.place_and_route.place.sa.c_kernel"
@@ -311,7 +326,7 @@ class Caller(object):
         if kind in ("place", "allocate", "route", "tables", "minimise",
                     "wrapper"):
             machine, g, constraints = self.problem(t)
-            pname, pfn, pkw = self.placer(t, placer)
+            pname, pfn, pkw = self.placer(t, placer, g, machine)
             self.seed_globals(t)
             vr, nets = g.vertices_resources, g.nets
             if kind == "wrapper":
@@ -560,7 +575,7 @@ class Caller(object):
         if which == 0:
             machine, g, constraints = self.problem(t)
             si = self.system_info(t, machine.width, machine.height)
-            pname, pfn, pkw = self.placer(t, None)
+            pname, pfn, pkw = self.placer(t, None, g, machine)
             self.seed_globals(t)
             vr, nets = g.vertices_resources, g.nets
             apps = {v: ["a.aplx", "b.aplx"][prgen.vid(v) % 2] for v in vr}
@@ -630,7 +645,7 @@ class Caller(object):
         # hand-chained flow ending in the application map and the deprecated
         # table builder
         machine, g, constraints = self.problem(t)
-        pname, pfn, pkw = self.placer(t, None)
+        pname, pfn, pkw = self.placer(t, None, g, machine)
         self.seed_globals(t)
         vr, nets = g.vertices_resources, g.nets
         ner = rig_module("rig.place_and_route.route.ner")
@@ -707,7 +722,7 @@ class Caller(object):
             mine.update(new)
         wnets[:] = g.nets
         wcons[:] = constraints
-        pname, pfn, pkw = self.placer(t, None)
+        pname, pfn, pkw = self.placer(t, None, g, machine)
         self.seed_globals(t)
         ner = rig_module("rig.place_and_route.route.ner")
         alloc = rig_module("rig.place_and_route.allocate.greedy")
